@@ -742,3 +742,80 @@ def gen_C11_big(chk):
                 fs += [gen.render(a), gen.render(b)]
             add_shell(chk, "EQV", ["0", "A:" + gen.hx(net), "%s=f%s,%s=f%s" % (gen.hx("s"), gen.hx(sdef), gen.hx("t"), gen.hx(tdef)),
                                    ",".join(gen.hx(f) for f in fs)], tag="big-laws", meta={"net": nm})
+
+
+# ------------------------------------------------------------------ bundled benchmark-size models
+def bench_models(thorough_):
+    import os
+    out = []
+    names = ["model-010-13var-2in.aeon"] + (["model-022-17var-5in.aeon"] if thorough_ else [])
+    for nm in names:
+        p = os.path.join("/repo/test", nm)
+        if os.path.exists(p):
+            out.append((nm, open(p).read()))
+    return out
+
+
+def bench_props(net):
+    return net_props(net)
+
+
+def gen_bench_laws(chk):
+    """C11: laws by BDD equality through the API on the bundled models"""
+    from .shellprops import add_shell
+    rng = chk.rng
+    S, Tt = gen.T("W", "s"), gen.T("W", "t")
+    for nm, net in bench_models(thorough(chk)):
+        props = bench_props(net)
+        for j in range(4 if thorough(chk) else 2):
+            a, b, c = rng.sample(props, 3)
+            sdef = rng.choice(["%s & ~%s" % (a, b), "%s | (%s ^ %s)" % (a, b, c), "~%s" % a, "%s <=> %s" % (a, c)])
+            tdef = rng.choice(["%s" % c, "%s & %s" % (b, c), "~(%s | %s)" % (a, c)])
+            fs = []
+            for x, y in laws_for(S, Tt):
+                fs += [gen.render(x), gen.render(y)]
+            add_shell(chk, "EQV", ["0", "A:" + gen.hx(net), "%s=f%s,%s=f%s" % (gen.hx("s"), gen.hx(sdef), gen.hx("t"), gen.hx(tdef)),
+                                   ",".join(gen.hx(f) for f in fs)], tag="bench-laws", meta={"net": nm})
+
+
+def gen_bench_patterns(chk):
+    """C12: shortcuts vs pattern-defeating rewrites on the bundled models"""
+    from .shellprops import add_shell
+    rng = chk.rng
+    for nm, net in bench_models(thorough(chk)):
+        props = bench_props(net)
+        a = rng.choice(props)
+        pairs = [
+            ("!{x}: AG EF {x}", "!{x}: AG EF ({x} & {x})"),
+            ("!{x}: AX {x}", "!{x}: AX ({x} & {x})"),
+            ("EF (!{x}: AX {x})", "EF (!{x}: AX ({x} & {x}))"),
+            ("%s & AX (!{x}: AG EF {x})" % a, "%s & AX (!{x}: AG EF ({x} & {x}))" % a),
+            ("3{y}: (@{y}: %s) & (!{x}: AX {x})" % a, "3{y}: (@{y}: %s) & (!{x}: AX ({x} & {x}))" % a),
+            ("3{y} in %d%: @{y}: (!{x}: AX {x})", "3{y} in %d%: @{y}: (!{x}: AX ({x} & {x}))"),
+            ("!{y} in %d%: (!{x}: AG EF {x})", "!{y} in %d%: (!{x}: AG EF ({x} & {x}))"),
+        ]
+        fs = []
+        for x, y in pairs:
+            fs += [x, y]
+        add_shell(chk, "EQV", ["2", "A:" + gen.hx(net), "%s=f%s" % (gen.hx("d"), gen.hx("%s | ~%s" % (a, rng.choice(props)))),
+                               ",".join(gen.hx(f) for f in fs)], tag="bench-patterns", meta={"net": nm})
+
+
+def gen_bench_subst(chk):
+    """C10: closed sub-formulae replaced by their raw results on the bundled models"""
+    from .shellprops import add_shell
+    rng = chk.rng
+    for nm, net in bench_models(thorough(chk)):
+        props = bench_props(net)
+        for j in range(6 if thorough(chk) else 3):
+            f = gen.random_formula(rng, rng.randint(3, 7), rng.sample(props, 3), max_vars=1, w_hybrid=0.25,
+                                   unops=["Not", "EX", "AX", "EF", "AG"], binops=["And", "Or", "Imp", "EU"])
+            closed = [x for x in gen.subtrees(f) if not gen.free_vars(x) and x[0] != "T" and x != f]
+            if not closed:
+                continue
+            sub = rng.choice(closed)
+            g = replace_subtree(f, sub, gen.T("W", "w0"))
+            add_shell(chk, "EQV", [str(max(1, gen.quant_depth(f))), "A:" + gen.hx(net),
+                                   "%s=f%s" % (gen.hx("w0"), gen.hx(gen.render(sub))),
+                                   ",".join(gen.hx(x) for x in [gen.render(f), gen.render(g)])],
+                      tag="bench-subst", meta={"net": nm})
